@@ -32,7 +32,6 @@ import (
 	"sync"
 	"time"
 
-	lru "github.com/hashicorp/golang-lru/v2"
 )
 
 const (
@@ -484,11 +483,24 @@ func handle(c net.Conn, host string) {
 // package state a run could otherwise inherit.
 func VerifUseWorld(w *VWorld, cacheSize int) {
 	vWorld = w
-	cache, _ = lru.New[string, bundle](cacheSize)
 	if verifrt.Symbolic() {
+		// the cache is built the way the program builds it: jtp's own
+		// initialisers run again with the wanted size in the configuration
+		saved := config.Parsed.Network.CacheSize
+		config.Parsed.Network.CacheSize = cacheSize
+		verifrt.Reinit("servitor/jtp")
+		config.Parsed.Network.CacheSize = saved
 		simConns = map[*tls.Conn]*simConn{}
 		VClock = time.Unix(1700000000, 0)
 		return
+	}
+	// natively initialisers cannot run again: the cache is emptied and, if
+	// its type can do that, resized (written against whatever type it has)
+	if p, ok := any(cache).(interface{ Purge() }); ok {
+		p.Purge()
+	}
+	if r, ok := any(cache).(interface{ Resize(int) int }); ok {
+		r.Resize(cacheSize)
 	}
 	startNative()
 	// keep native replays short: the real timeout is what the code under test uses
